@@ -17,7 +17,11 @@
            genesis / performed step:  1;<column>;<id>=<share>~...      refused step: 0
            S: S;<value>|none      X: X;<value>|none
      Z <id> <q> <zero sharing> <rnd> [<j> <delta>]     HJKY alone; with j,delta party j deals delta instead of 0
-        -> Z <id> <per party, in order: ok;<share>;<vv> | blame:<j> | abort> separated by blanks *)
+        -> Z <id> <per party, in order: ok;<share>;<vv> | blame:<j> | abort> separated by blanks
+     V <id> <q> <sharing> <dealer reads> <next sharing> <Q ids> <anchor> <zero sharing> <rnd1> <rnd2> <coefs (sharing,Q)> <coefs (zero,Q)> <dev> <mode> <delta>
+        one redistribution step in which previous holder dev deviates: mode 0 = deals its contribution + delta
+        (consistent pieces), 1 = broadcasts a previous vector with first entry + delta, 2 = both
+        -> V <id> <per next holder other than dev, in table order: <i>:ok | <i>:blame:<j> | <i>:abort> *)
 open Model
 open Helpers
 
@@ -133,4 +137,46 @@ let () =
              | Blame j -> "blame:" ^ z_to_string j
              | Abort -> "abort") cols in
          Printf.printf "Z %s %s\n" id (String.concat " " outs))
+    | ["V"; id; qs; sh; dealer; ns; qq; anchor; zs; r1; r2; lam; lamz; dev; mode; delta] ->
+      let q = z_of_hex qs in
+      let k = zp q in
+      (match genesis_of_tape q (sharing_of sh) (reads_of dealer) with
+       | None -> Printf.printf "V %s refused\n" id
+       | Some w ->
+         let nsh = sharing_of ns and zsh = sharing_of zs in
+         let quorum = ids_of qq in
+         register w.w_sh quorum (coefs_of lam);
+         register zsh quorum (coefs_of lamz);
+         let rnd1 = rnd_of_text q r1 and rnd2 = rnd_of_text q r2 in
+         let devid = z_of_id dev and d = z_of_hex delta and md = int_of_string mode in
+         let anch = z_of_id anchor in
+         let eq = Big_int_Z.eq_big_int in
+         (match hjky_cols k zsh rnd1 with
+          | None -> Printf.printf "V %s refused\n" id
+          | Some zc ->
+            let zres = List.map (fun j -> (j, match hjky_party k zsh zc j with Ok z -> z | _ -> failwith "hjky")) quorum in
+            let cols = List.map (fun j ->
+                (j, match round2 k solve w.w_sh zsh nsh quorum j (share_in w j) (fst (List.assoc j zres)) (rnd_of rnd2 j) with
+                  | Some ac -> ac | None -> failwith "round2")) quorum in
+            let bump v = match v with [] -> [] | x :: t -> k.fadd x d :: t in
+            let outs = List.filter_map (fun (i, _) ->
+                if eq i devid then None else begin
+                  let isprev = List.exists (eq i) quorum in
+                  let inbox = r3_inbox k w nsh zres cols i in
+                  let inbox = List.map (fun m ->
+                      if eq m.m_from devid then begin
+                        let b = m.m_b in
+                        let nvv = if md = 0 || md = 2 then bump b.b_nextvv else b.b_nextvv in
+                        let pvv = if md = 1 || md = 2 then bump b.b_prevvv else b.b_prevvv in
+                        { m_from = m.m_from;
+                          m_b = { b_prev = b.b_prev; b_prevvv = pvv; b_zerovv = b.b_zerovv; b_nextvv = nvv };
+                          m_piece = if md = 0 || md = 2 then share_of k nsh nvv i else m.m_piece }
+                      end else m) inbox in
+                  let own = if isprev then (let (_, c) = List.assoc i cols in Some (share_of k nsh c i, c)) else None in
+                  let own_t = if isprev then Some ((w.w_sh, w.w_vv), snd (List.assoc i zres)) else None in
+                  let r = match round3 k solve own_t own anch zsh nsh quorum i inbox with
+                    | Ok _ -> "ok" | Blame j -> "blame:" ^ z_to_string j | Abort -> "abort" in
+                  Some (z_to_string i ^ ":" ^ r)
+                end) nsh.sh_tab in
+            Printf.printf "V %s %s\n" id (String.concat " " outs)))
     | _ -> failwith ("bad line " ^ line))
